@@ -695,6 +695,16 @@ func (fc *funcCtx) localEnv(st *State, l *Loop) *Env {
 			env.vars[name] = v
 		}
 	}
+	// locals renamed since the contract was written are reachable under their old names
+	// (before parameters are filled in: a renamed parameter that the function re-assigns must
+	// denote its current value, not its entry value)
+	for old, cur := range fc.rename {
+		if v, ok := env.vars[cur]; ok {
+			if _, clash := env.vars[old]; !clash {
+				env.vars[old] = v
+			}
+		}
+	}
 	// parameters that are never re-assigned may have no cell of their own
 	for k, v := range st.entryVals {
 		if _, ok := env.vars[k]; !ok {
@@ -702,14 +712,6 @@ func (fc *funcCtx) localEnv(st *State, l *Loop) *Env {
 		}
 		if _, ok := env.vars[k+"$1"]; !ok {
 			env.vars[k+"$1"] = v
-		}
-	}
-	// locals renamed since the contract was written are reachable under their old names
-	for old, cur := range fc.rename {
-		if v, ok := env.vars[cur]; ok {
-			if _, clash := env.vars[old]; !clash {
-				env.vars[old] = v
-			}
 		}
 	}
 	oldVars := map[string]Value{}
@@ -724,7 +726,7 @@ func (fc *funcCtx) localEnv(st *State, l *Loop) *Env {
 			continue
 		}
 		if v, ok := st.cells[fr.L.KCell].(Sc); ok {
-			env.kOther[fmt.Sprintf("$k%d", fr.L.Ordinal)] = plus(v.T, smtInt(int64(fr.L.KOff-1)))
+			env.kOther[fmt.Sprintf("$k%d", fr.L.Ordinal)] = plus(v.T, smtInt(int64(fr.L.KOffBody)))
 		}
 	}
 	if l != nil && l.KCell != nil {
